@@ -142,6 +142,14 @@ func vRunJob(t *testing.T, job *vJob, tmpRoot string) *vResult {
 		return res
 	}
 	defer os.RemoveAll(dir)
+	// every run starts in a working directory of its own, distinct from the temp directory: a relative path
+	// means something there (the simulated processes share the one real working directory)
+	if cwd0, err := os.Getwd(); err == nil {
+		wd := filepath.Join(dir, "cwd")
+		if os.MkdirAll(wd, 0755) == nil && os.Chdir(wd) == nil {
+			defer os.Chdir(cwd0)
+		}
+	}
 	rc := &runCtx{t: t, job: job, tape: tape, dir: dir, res: res}
 	start := time.Now()
 	old := debug.SetGCPercent(-1)
